@@ -5,19 +5,42 @@ CFG = {
     "check_vo": "theories/Formats/StlBigProofs.vo", "prop_vo": "theories/Properties/C07.vo",
     "prop_file": "theories/Properties/C07.v",
     "theory_files": ["theories/Base/Bytes.v", "theories/Base/BytesProofs.v",
-                     "theories/Formats/Stl.v", "theories/Formats/StlProofs.v", "theories/Formats/StlBigProofs.v"],
+                     "theories/Formats/Stl.v", "theories/Formats/StlProofs.v", "theories/Formats/StlBigProofs.v",
+                     "theories/Formats/StlIo.v", "theories/Formats/StlIoProofs.v",
+                     "theories/Formats/StlNormal.v", "theories/Formats/StlNormalProofs.v"],
     "level_text": "Coq theorems about a byte-level model of stl.Write/Read/WriteMesh/ReadMesh (size law, both round-trip "
                   "directions incl. inputs with trailing bytes, chunk-size independence of the chunked reader for every "
                   "chunk size, byte-exact record/normal placement, mesh-level gather, prefix rejection) for every triangle "
-                  "list and byte string; the model is tied to the Go code on every run by evaluating it (vm_compute) on the "
+                  "list and byte string; of stl.Read on an io.Reader that delivers the data in pieces (same result for every "
+                  "segmentation incl. empty reads; failing reader = cut file = rejected) and of a writer that fails after k "
+                  "bytes (error reported iff the file does not fit); and of the facet-normal VALUE: an integer-arithmetic "
+                  "decision procedure for 'these float32 words are the normalised sum of the corner normals', proved sound "
+                  "over the real numbers ((1/2 + 2^-21) ulp) and invariant under the scale of the normals; the model is tied to the Go code on every run by evaluating it (vm_compute) on the "
                   "implementation's inputs and outputs and by a direct oracle on the implementation's output",
     "level_note": "Trusted: Coq kernel + vm_compute; hand-written model tied by differential correspondence only "
-                  "(generator quality bounds it); float32 rounding and facet-normal arithmetic are Go-side (tolerance check); "
+                  "(generator quality bounds it); float64->float32 rounding of positions is Go-side; the facet-normal value is decided "
+                  "exactly in Coq whenever the vertex normals are integers times a common power of two below 2^50 (all "
+                  "generator modes but one), otherwise by a 1e-6 tolerance check in the harness; the geometric normal ReadMesh "
+                  "substitutes for zero records is a harness tolerance check; the two soundness theorems about real numbers "
+                  "depend on the axioms of Coq's standard Reals library (listed by Print Assumptions); "
                   "outputs of the large cases (up to ~20000 records) are compared through two 63-bit polynomial fingerprints",
     "technique": "Coq proof (induction over record lists, byte-level round trip) + vm_compute correspondence check",
     "design_ref": "DESIGN.md §4 C07",
     "n_quick": 200, "n_thorough": 3000,
-    "rule": "five streams. (0) a fixed header stream: 33 free-form 80-byte header texts (solid/SOLID with leading blanks, ASCII-STL prologue, endsolid, near misses, NULs, UTF-8, 8-bit blobs, all-0xFF/space/newline) on complete two-record and empty files through Read/Write/ReadMesh; random byte strings draw their header from random bytes, ASCII-STL vocabulary text or these templates. (1) n random small inputs: triangle meshes (0-10 triangles; welded, unwelded identity, as many "
+    "rule": "eight streams (5-7 new in round 4). (5) reader grid: synthetic files of 0, 2, 81, 83, 164 records (below and above "
+            "bufio's 4096 bytes; thorough: 13 sizes up to 1000) and 4097+ records through every reader kind: iotest.HalfReader, "
+            "OneByteReader, DataErrReader, Half+DataErr, random pieces incl. empty reads (with and without the final error "
+            "delivered together with data), bufio of 16 bytes over pieces, io.Pipe, *os.File / stl.Load, iotest.TimeoutReader and "
+            "a reader failing after k bytes (effective input = delivered prefix: must be rejected); every random byte-string "
+            "case draws a reader kind as well. (6) writer grid: stl.Write / stl.WriteMesh into a writer accepting cap bytes "
+            "then failing: every cap 0..85 on the empty file, boundaries of header/count/record on 1 record, random caps on "
+            "2-7 records, caps around 84+50*4096 and the end on 4097 and 8193 records; stl.Save to /dev/full: an error must be "
+            "reported iff cap < 84+50n. (7) stl.Save/stl.Load on files: 1/8 of the random meshes, every 7th shape, one large mesh. "
+            "Mesh normals are drawn from: 2^-16 grid (a quarter far from unit length), unit normals quantised to 2^-18..2^-30, "
+            "flat shading (one nearly-unit normal), small integers, common scale 2^+-20..60, axis-aligned incl. -0, full "
+            "precision floats; large meshes carry a signed odd multiple of one axis per vertex so the facet normal changes "
+            "from triangle to triangle without a power-of-two period. Stored normals of byte strings include components that "
+            "cancel, tiny/subnormal lengths, mixed +-0, NaN/Inf among zeros. Then the five earlier streams: (0) a fixed header stream: 33 free-form 80-byte header texts (solid/SOLID with leading blanks, ASCII-STL prologue, endsolid, near misses, NULs, UTF-8, 8-bit blobs, all-0xFF/space/newline) on complete two-record and empty files through Read/Write/ReadMesh; random byte strings draw their header from random bytes, ASCII-STL vocabulary text or these templates. (1) n random small inputs: triangle meshes (0-10 triangles; welded, unwelded identity, as many "
             "indices as vertices but permuted or with repeats, as many vertices as triangles; +-normals incl. far from unit "
             "length, +-Position, trailing partial triangle) through stl.WriteMesh/ReadMesh, and well-formed STL byte strings "
             "(0-8 records, arbitrary float bit patterns incl. NaN/-0, zero and non-zero stored normals; 1/10 truncated, "
@@ -31,8 +54,13 @@ CFG = {
             "as many vertices as triangles, welded over few vertices; +-normals) through WriteMesh/ReadMesh. Large cases "
             "carry (n, seed, shape) only: Coq and Go derive the same records and compare order-sensitive fingerprints. "
             "Distinct by input; non-trivial = at least one triangle record",
-    "trusted": ["facet-normal *values* (normalised mean / geometric normal) are float arithmetic: compared by the "
-                "harness against an independent float64 computation (1e-6), only their placement is in the model",
+    "trusted": ["facet-normal value: decided in Coq by exact integer arithmetic (StlNormal.facet_ok: within (1/2 + 2^-21) ulp of "
+                "s/|s|, theorem stl_facet_normal_value) for normals that are integers < 2^50 times a common power of two; "
+                "the harness converts float64 normals to those integers (math.Frexp) and additionally keeps the 1e-6 "
+                "comparison with an independent float64 computation for every mesh; the geometric normal on read-back of "
+                "zero records is compared by the harness only (1e-6)",
+                "reader/writer grid: readers are Go's testing/iotest wrappers, io.Pipe, os files and a seeded piece reader; "
+                "for a failing reader the case is judged on the prefix it delivered (counted by a wrapper)",
                 "float words are compared modulo the quieting of signalling NaNs that encoding/binary performs (float32 -> "
                 "float64 -> float32 on struct fields): notes/C07.md finding F1",
                 "large cases: equality of outputs is judged through two 63-bit polynomial fingerprints (collision "
